@@ -29,7 +29,7 @@ func (fc *FnCtx) lemmaFact(lm *spec.Lemma) *smt.Term {
 		n = n.with(p.Name, Val{T: bv})
 	}
 	body := n.boolean(lm.E)
-	if lm.Induct != "" {
+	if lm.Induct != "" && lm.Measure == nil {
 		k := n.bound[lm.Induct].T
 		body = smt.Implies(smt.And(smt.Le(n.eval(lm.Lo).T, k), smt.Le(k, n.eval(lm.Hi).T)), body)
 	}
@@ -74,6 +74,15 @@ func VerifyLemma(p *Program, lm *spec.Lemma, opt Options) FnReport {
 		for _, pr := range lm.Params {
 			ec.vars[pr.Name] = Val{T: fc.S.Fresh("l_"+pr.Name, specSort(pr.Type))}
 		}
+		if lm.Measure != nil {
+			// induction on the value of the measure: prove (measure == n ==> E) by induction on n
+			lmCopy := *lm
+			lmCopy.Params = append(append([]spec.Param{}, lm.Params...), spec.Param{Name: "n!measure", Type: "int"})
+			lmCopy.E = &spec.Binary{Op: "==>", X: &spec.Binary{Op: "==", X: lm.Measure, Y: &spec.Ident{Name: "n!measure"}}, Y: lm.E}
+			lmCopy.Measure = nil
+			lm = &lmCopy
+			ec.vars["n!measure"] = Val{T: fc.S.Fresh("l_n", smt.Int)}
+		}
 		// hints: instances of other lemmas
 		for _, u := range lm.Uses {
 			c, ok := u.(*spec.Call)
@@ -92,7 +101,7 @@ func VerifyLemma(p *Program, lm *spec.Lemma, opt Options) FnReport {
 					n = n.with(pr.Name, ec.eval(c.Args[i]))
 				}
 				inst := n.boolean(other.E)
-				if other.Induct != "" {
+				if other.Induct != "" && other.Measure == nil {
 					k := n.bound[other.Induct].T
 					inst = smt.Implies(smt.And(smt.Le(n.eval(other.Lo).T, k), smt.Le(k, n.eval(other.Hi).T)), inst)
 				}
@@ -106,6 +115,37 @@ func VerifyLemma(p *Program, lm *spec.Lemma, opt Options) FnReport {
 		}
 		k := ec.vars[lm.Induct].T
 		lo, hi := ec.eval(lm.Lo).T, ec.eval(lm.Hi).T
+		// induction hypothesis, optionally generalised over some parameters
+		hypAt := func(kv *smt.Term) *smt.Term {
+			n := ec.with(lm.Induct, Val{T: kv})
+			var bvs []*smt.Term
+			for _, gname := range lm.Generalizing {
+				for _, pr := range lm.Params {
+					if pr.Name == gname {
+						bv := smt.Const(gname+"!g", specSort(pr.Type))
+						bvs = append(bvs, bv)
+						n = n.with(gname, Val{T: bv})
+					}
+				}
+			}
+			return smt.Forall(bvs, n.boolean(lm.E))
+		}
+		for hi2, h := range lm.Hints {
+			fc.oblige("lemma", fmt.Sprintf("hint%d", hi2+1), lm.Tags, smt.True, ec.boolean(h), lm.Name, h.String())
+			fc.S.Assert(ec.boolean(h), "hint (proved as its own obligation)")
+		}
+		if len(lm.Generalizing) > 0 {
+			if !lm.Down {
+				fc.oblige("lemma", "base", lm.Tags, smt.Le(lo, hi), ec.with(lm.Induct, Val{T: lo}).boolean(lm.E), lm.Name, lm.E.String())
+				hyp := smt.And(smt.Le(lo, k), smt.Lt(k, hi), hypAt(k))
+				fc.oblige("lemma", "step", lm.Tags, hyp, ec.with(lm.Induct, Val{T: smt.Add(k, smt.IntLit(1))}).boolean(lm.E), lm.Name, lm.E.String())
+			} else {
+				fc.oblige("lemma", "base", lm.Tags, smt.Le(lo, hi), ec.with(lm.Induct, Val{T: hi}).boolean(lm.E), lm.Name, lm.E.String())
+				hyp := smt.And(smt.Lt(lo, k), smt.Le(k, hi), hypAt(k))
+				fc.oblige("lemma", "step", lm.Tags, hyp, ec.with(lm.Induct, Val{T: smt.Sub(k, smt.IntLit(1))}).boolean(lm.E), lm.Name, lm.E.String())
+			}
+			return
+		}
 		if !lm.Down {
 			fc.oblige("lemma", "base", lm.Tags, smt.Le(lo, hi), ec.with(lm.Induct, Val{T: lo}).boolean(lm.E), lm.Name, lm.E.String())
 			hyp := smt.And(smt.Le(lo, k), smt.Lt(k, hi), ec.boolean(lm.E))
